@@ -489,7 +489,7 @@ def delimiter_reason(shape: str | None, name: str, v) -> str | None:
             if kv and "=" in k:
                 return "delimiter"
     else:
-        if kind == "labelPlain" and not v:
+        if kind == "labelPlain" and v is None:
             return "label-falsy"
         if kind == "matrixPlain" and v is None:
             return "label-falsy"
@@ -553,7 +553,7 @@ def e2e_styles(chk, variants, n_random, front="strategy"):
                 if not hasattr(pl, "serializers"):
                     pl.serializers = get_serializers_for_operation(pl.operation)
                 kwargs = Template(pl.serializers)._serialize({cname: {name: copy.deepcopy(v)}})
-                if cell["loc"] == "path" and kwargs[cname].get(name) in ("", None):
+                if cell["loc"] == "path" and kwargs[cname].get(name) in ("", None) and v in ("", None, [], {}):
                     raise Rejected("empty path value")   # the generators of the coverage phase never emit it
                 case = pl.operation.Case(**kwargs)
             prep = pl.prepared(case)
@@ -605,6 +605,15 @@ def e2e_styles(chk, variants, n_random, front="strategy"):
         if obs == "REJECTED":
             chk.case(mech, key=[cell, name, enc_val(v)], nontrivial=False)
             chk.feature("e2e:rejected-by-is_valid-filter")
+            # the filter sits behind the serializer: a value whose text (by the model) is a legal, non-empty path segment
+            # can only be filtered out because the real serializer produced another text - the value can never be sent
+            w = m["wire"]
+            if front == "strategy" and loc == "path" and isinstance(w, str) and m["shape_ok"] and m["single"] \
+                    and w not in ("", "/") and not any(ch in w for ch in "/{}") and not any(0xD800 <= ord(ch) <= 0xDFFF for ch in w):
+                chk.violation(f"C06:pipeline:{tag}:value-filtered-out-although-its-text-is-a-legal-path-segment",
+                              f"{tag}: parameter {name}={v!r} is written {w!r} by the declared style, but the generated case is "
+                              f"rejected by is_valid_path: the serializer produced an empty or unusable text for it",
+                              {"mechanism": "e2e", "cell": cell, "name": name, "value": v, "model_wire": w})
             continue
         chk.case(mech, key=[cell, name, enc_val(v)], nontrivial=True,
                  sample={"cell": cell, "name": name, "value": v, "observed": t, "model_wire": m["wire"]})
@@ -1818,7 +1827,7 @@ def fill_evidence(chk):
         "style_roundtrip_partial (as found): reference decoder of the declared style o serializer = string coercion, all "
         "single-string cells of the location x style x explode x type table, all names and values, under the explicit "
         "no-delimiter hypothesis Decodable",
-        "delimiter_inside_item_lost, empty_array_ambiguous, python_repr_inside_array, label_zero_lost, "
+        "delimiter_inside_item_lost, empty_array_ambiguous, python_repr_inside_array, label_zero_kept, "
         "path_default_style_not_serialized, absent_explode_object_not_serialized: the hypotheses are necessary / the "
         "known-bad cells really are bad (kernel-checked witnesses)",
         "headers_only_expected, generated_header_sent, content_type_is_media_type (+ wsgi_overwrites_generated_content_type witness)",
